@@ -6,6 +6,7 @@ import (
 	"fmt"
 	"math/rand/v2"
 	"sort"
+	"strings"
 	"time"
 
 	"github.com/bool64/cache"
@@ -42,6 +43,9 @@ type IndexScenario struct {
 	// Sweep: after the clients finished, InvalidateByLabels(Sweep...) runs without faults; afterwards
 	// no key that was ever labelled may be left in a cache of its name.
 	Sweep []string `json:"sweep,omitempty"`
+	// CtorDefault: the deleters of the "default" name are handed to NewInvalidationIndex instead of
+	// AddCache, and labels of that name are added through AddInvalidationLabels.
+	CtorDefault bool `json:"ctor_default,omitempty"`
 }
 
 func init() {
@@ -76,6 +80,18 @@ func genC15(r *rand.Rand, run int, _ string) *Scenario {
 
 	names := []string{"default", "users", "orders"}[:1+r.IntN(3)]
 	labels := []string{"la", "lb", "lc", "ld"}[:1+r.IntN(4)]
+	ix.CtorDefault = chance(r, 0.4)
+
+	if chance(r, 0.25) {
+		// unusual but valid keys, labels and names
+		odd := []string{"", "\x00", "key0\x00", strings.Repeat("K", 300), "k,ey", "ключ"}
+		for i := 0; i < nk && i < len(odd); i++ {
+			ix.Keys[i] = odd[i]
+		}
+
+		labels = []string{"", "la", "la,lb", " la", "метка"}[:1+r.IntN(5)]
+		names = []string{"default", "", "users/eu"}[:1+r.IntN(3)]
+	}
 
 	for _, n := range names {
 		nd := 1 + r.IntN(3)
@@ -96,6 +112,9 @@ func genC15(r *rand.Rand, run int, _ string) *Scenario {
 	nl := r.IntN(3 * nk)
 	for i := 0; i < nl; i++ {
 		op := IndexOp{Kind: "addLabels", Name: pick(r, names...), Key: r.IntN(nk), Mutate: chance(r, 0.2)}
+		if chance(r, 0.06) {
+			op.Name = "ghost" // labels for a cache name nothing is registered under
+		}
 
 		n := 1 + r.IntN(3)
 		for j := 0; j < n; j++ {
@@ -275,7 +294,7 @@ func runIndex(e *env) {
 	sc := e.sc.TR.Index
 	out := e.out
 	r := &ixRun{e: e, sc: sc, failAt: sc.FailAt, labels: map[string]map[string][]string{}, added: make([]bool, len(sc.Caches))}
-	r.ix = cache.NewInvalidationIndex()
+	var ctor []cache.Deleter
 
 	for i, c := range sc.Caches {
 		st := newTRStore(e, c.Backend, true)
@@ -286,8 +305,17 @@ func runIndex(e *env) {
 
 		r.stores = append(r.stores, st)
 
-		if !c.Late {
-			r.ix.AddCache(c.Name, &ixDeleter{r: r, idx: i, st: st, name: c.Name})
+		if !c.Late && sc.CtorDefault && c.Name == "default" {
+			ctor = append(ctor, &ixDeleter{r: r, idx: i, st: st, name: c.Name})
+			r.added[i] = true
+		}
+	}
+
+	r.ix = cache.NewInvalidationIndex(ctor...)
+
+	for i, c := range sc.Caches {
+		if !c.Late && !r.added[i] {
+			r.ix.AddCache(c.Name, &ixDeleter{r: r, idx: i, st: r.stores[i], name: c.Name})
 			r.added[i] = true
 		}
 	}
@@ -392,7 +420,13 @@ func (r *ixRun) exec(ci int, op *IndexOp) *ixRec {
 	case "addLabels":
 		kb := []byte(r.sc.Keys[op.Key])
 		rec.inv = e.s.NextSeq()
-		r.ix.AddLabels(op.Name, kb, op.Labels...)
+
+		if r.sc.CtorDefault && op.Name == "default" {
+			r.ix.AddInvalidationLabels(kb, op.Labels...)
+		} else {
+			r.ix.AddLabels(op.Name, kb, op.Labels...)
+		}
+
 		rec.ret = e.s.NextSeq()
 
 		if op.Mutate {
